@@ -97,9 +97,13 @@ func parseScript(s string) (script, error) {
 }
 
 type config struct {
-	kind  string // pub dis disdeco nil
+	kind  string // pub pubdeco dis disdeco nil
 	topic string
 	mws   string // "" or word over p,o,r (router level) and P,O,R (handler level)
+	// nb: "" or a second handler on the same router that never gets a message: first letter E (registered with the
+	// empty name) or N (named "other"), then its OWN handler-level middlewares: s swallows the error, x rejects, o adds
+	// an output. With kind pub/pubdeco it has its own publisher instance of the same Go type as the main handler's.
+	nb string
 }
 
 func (c config) String() string {
@@ -107,15 +111,24 @@ func (c config) String() string {
 	if m == "" {
 		m = "-"
 	}
+	if c.nb != "" {
+		return c.kind + "/" + wh.HexS(c.topic) + "/" + m + "/" + c.nb
+	}
 	return c.kind + "/" + wh.HexS(c.topic) + "/" + m
 }
 
 func parseConfig(s string) (config, error) {
 	f := strings.Split(s, "/")
-	if len(f) != 3 {
+	if len(f) != 3 && len(f) != 4 {
 		return config{}, fmt.Errorf("bad config %q", s)
 	}
 	c := config{kind: f[0]}
+	if len(f) == 4 {
+		c.nb = f[3]
+		if len(c.nb) < 1 || (c.nb[0] != 'E' && c.nb[0] != 'N') || strings.Trim(c.nb[1:], "sxo") != "" {
+			return c, fmt.Errorf("bad neighbour in %q", s)
+		}
+	}
 	if f[1] != "-" {
 		b, err := hexDecode(f[1])
 		if err != nil {
@@ -127,7 +140,7 @@ func parseConfig(s string) (config, error) {
 		c.mws = f[2]
 	}
 	switch c.kind {
-	case "pub", "dis", "disdeco", "nil":
+	case "pub", "pubdeco", "dis", "disdeco", "nil":
 	default:
 		return c, fmt.Errorf("bad kind %q", c.kind)
 	}
@@ -362,6 +375,27 @@ func (s *scenario) middleware(pos int, kind byte) message.HandlerMiddleware {
 	}
 }
 
+// neighbourMiddleware: handler-level middlewares of the OTHER handler; if the Router composed them into the chain of
+// handler "h" they would change its result (s: the error disappears, x: everything fails, o: one more output, id 900).
+func (s *scenario) neighbourMiddleware(kind byte) message.HandlerMiddleware {
+	return func(h message.HandlerFunc) message.HandlerFunc {
+		return func(msg *message.Message) ([]*message.Message, error) {
+			outs, err := h(msg)
+			switch kind {
+			case 's':
+				return outs, nil
+			case 'x':
+				return nil, errors.New("rejected by the other handler's middleware")
+			default:
+				if v, ok := s.byMsg.Load(msg); ok {
+					outs = append(outs, s.newOut(v.(*msgState), 900))
+				}
+				return outs, err
+			}
+		}
+	}
+}
+
 // identify attributes a Publish call to the consumed message its outputs were produced for.
 func (s *scenario) identify(msgs []*message.Message) (*msgState, string) {
 	var st *msgState
@@ -393,12 +427,24 @@ func (s *scenario) identify(msgs []*message.Message) (*msgState, string) {
 
 // recPub records every Publish call that reaches the handler's publisher and how it ends.
 type recPub struct {
-	s     *scenario
-	inner message.Publisher
+	s       *scenario
+	inner   message.Publisher
+	foreign bool // the publisher of the OTHER handler of the router: accepts everything, logs W instead of P/R
 }
+
+// passPub is what a pass-through publisher decorator returns.
+type passPub struct{ message.Publisher }
 
 func (p *recPub) Publish(topic string, msgs ...*message.Message) (err error) {
 	st, ids := p.s.identify(msgs)
+	if p.foreign {
+		if st == nil {
+			atomic.AddInt32(&p.s.orphans, 1)
+		} else {
+			st.log("W" + wh.HexS(topic) + "/" + ids) // outputs of this message went to another handler's publisher
+		}
+		return nil
+	}
 	if st == nil {
 		atomic.AddInt32(&p.s.orphans, 1)
 		return p.inner.Publish(topic, msgs...)
@@ -665,7 +711,10 @@ func runScenarioLate(out emitter, cfg config, scripts []script, rng *wh.Rng, yie
 	}
 	var hd *message.Handler
 	switch cfg.kind {
-	case "pub":
+	case "pub", "pubdeco":
+		if cfg.kind == "pubdeco" {
+			r.AddPublisherDecorators(func(p message.Publisher) (message.Publisher, error) { return passPub{p}, nil })
+		}
 		hd = r.AddHandler("h", "in", sub, cfg.topic, &recPub{s: s, inner: &scriptPub{s}}, s.handler)
 	case "nil":
 		hd = r.AddHandler("h", "in", sub, cfg.topic, nil, s.handler)
@@ -679,6 +728,25 @@ func runScenarioLate(out emitter, cfg config, scripts []script, rng *wh.Rng, yie
 			_, err := s.handler(msg)
 			return err
 		})
+	}
+	// the neighbour: a second handler that never receives anything; nothing of it may influence handler "h"
+	var nbSub *scriptSub
+	if cfg.nb != "" {
+		name := "other"
+		if cfg.nb[0] == 'E' {
+			name = "" // a legal handler name
+		}
+		nbSub = &scriptSub{ch: make(chan *message.Message), finished: make(chan struct{})}
+		nbFunc := func(msg *message.Message) ([]*message.Message, error) { return nil, nil }
+		var nh *message.Handler
+		if cfg.kind == "pub" || cfg.kind == "pubdeco" {
+			nh = r.AddHandler(name, "other-in", nbSub, "other-out", &recPub{s: s, inner: &scriptPub{s}, foreign: true}, nbFunc)
+		} else {
+			nh = r.AddNoPublisherHandler(name, "other-in", nbSub, func(msg *message.Message) error { return nil })
+		}
+		for i := 1; i < len(cfg.nb); i++ {
+			nh.AddMiddleware(s.neighbourMiddleware(cfg.nb[i]))
+		}
 	}
 	// middlewares in registration order; lower case = router level, upper case = handler level (same list in the Router)
 	for i := 0; i < len(cfg.mws); i++ {
@@ -960,6 +1028,61 @@ func lates(out emitter, rng *wh.Rng, yield bool) {
 						}
 					}
 				}
+			}
+		}
+	}
+}
+
+// neighbours: a second handler on the same router (empty or ordinary name, own handler-level middlewares, own publisher
+// instance of the same Go type) must not influence how handler "h" handles and settles its messages.
+func neighbours(out emitter, rng *wh.Rng, yield bool) {
+	for rep := 0; rep < 3; rep++ { // RunHandlers starts the handlers in map order: repeat, both orders must be right
+		for _, kind := range []string{"pub", "pubdeco", "nil", "dis", "disdeco"} {
+			for _, nb := range []string{"E", "Es", "Ex", "Eo", "Esx", "N", "Ns", "Nx", "No"} {
+				for _, mws := range []string{"", "oP"} {
+					for _, w := range []string{"-.r0.ok", "-.r2.ok", "-.r2.err", "-.e2.ok", "-.e0.ok", "n.r1.ok", "-.pv.ok", "-.r3.rej1"} {
+						if giveUp() {
+							return
+						}
+						cfg := config{kind: kind, mws: mws, nb: nb}
+						if kind != "dis" && kind != "disdeco" {
+							cfg.topic = "out"
+						}
+						k := kind
+						if k == "pubdeco" {
+							k = "pub"
+						}
+						scs := []script{scriptFor(k, w)}
+						begin(out, reqOf(cfg, scs))
+						obs := runScenario(out, cfg, scs, rng, yield)
+						out.Case(reqOf(cfg, scs), obs)
+						out.Count("neighbour." + kind + "." + nb[:1])
+					}
+				}
+			}
+		}
+	}
+}
+
+// bigOutputs: one handler invocation returning around and above 100 / 200 / 1000 messages.
+func bigOutputs(out emitter, rng *wh.Rng, yield bool, sizes []int) {
+	for _, k := range sizes {
+		for _, kind := range []string{"pub", "pubdeco", "nil"} {
+			for _, pb := range []string{"ok", "rej0", "rej" + wh.Itoa(k-1), "err"} {
+				if giveUp() {
+					return
+				}
+				if kind != "pub" && kind != "pubdeco" && pb != "ok" {
+					continue
+				}
+				cfg := config{kind: kind, mws: rng.Pick("", "p", "r", "R")}
+				res := "r" + wh.Itoa(k)
+				cfg.topic = "out"
+				scs := []script{mustScript("-." + res + "." + pb)}
+				begin(out, reqOf(cfg, scs))
+				obs := runScenario(out, cfg, scs, rng, yield)
+				out.Case(reqOf(cfg, scs), obs)
+				out.Count("big_output." + res)
 			}
 		}
 	}
@@ -1371,6 +1494,12 @@ func main() {
 	// pass 1: no hook installed, no yields
 	matrix(out, rng, false)
 	lates(out, rng, false)
+	neighbours(out, rng, false)
+	sizes := []int{99, 100, 101, 150, 200, 250}
+	if a.Thorough() {
+		sizes = []int{50, 99, 100, 101, 102, 150, 199, 200, 201, 250, 300, 512, 999, 1000}
+	}
+	bigOutputs(out, rng, false, sizes)
 	nr := 60
 	if a.Thorough() {
 		nr = 3000
